@@ -204,16 +204,18 @@ H = Harness(
 
 # ------------------------------------------------------------------------------ inheritance
 def inh_params(tier):
-    return [P("variant", 0, 5), P("leave", 0, 1), P("falsy", 0, 1)]
+    return [P("variant", 0, 7), P("leave", 0, 1), P("falsy", 0, 1)]
 
 
 @guard
 def inh_fn(a, tier):
-    variant, leave_exc, falsy = pick(a["variant"], 6), pick(a["leave"], 2), pick(a["falsy"], 2)
+    variant, leave_exc, falsy = pick(a["variant"], 8), pick(a["leave"], 2), pick(a["falsy"], 2)
     problems = []
     names = ["service task", "task factory task (start_task)", "task factory task (start_task_soon from a nested context)", "component prepare()/start()",
              "task of a factory started through the owner's METHOD while a nested context was current, spawned after that context was left",
-             "service task started through the owner's METHOD while a nested context was current"]
+             "service task started through the owner's METHOD while a nested context was current",
+             "two independent applications in sibling tasks that inherited no context, and an uninvolved observer task",
+             "component prepare()/start() at nesting depth 2 (a component whose start() itself calls start_component)"]
 
     class Batch(Context):
         """A context that is also a (currently empty) container: falsy."""
@@ -221,7 +223,51 @@ def inh_fn(a, tier):
         def __len__(self):
             return 0
 
+    async def independent_apps():
+        """No context is current where the tasks are spawned: whatever one application opens is invisible to the others."""
+        opened, done = anyio.Event(), anyio.Event()
+        seen = {}
+
+        async def app_one():
+            async with (Batch() if falsy else Context()) as root1:
+                seen["root1"] = root1
+                opened.set()
+                await done.wait()
+            seen["one_after"] = cur()
+
+        async def observer():
+            await opened.wait()
+            seen["observer"] = cur()
+
+        async def app_two():
+            await opened.wait()
+            seen["two_before"] = cur()
+            ctx = Context()
+            seen["two_parent"] = ctx.parent
+            try:
+                async with ctx:
+                    seen["two_inside"] = cur() is ctx
+                    if leave_exc:
+                        raise BodyErr("x")
+            except BodyErr:
+                pass
+            seen["two_after"] = cur()
+            done.set()
+
+        async with anyio.create_task_group() as tg:
+            tg.start_soon(app_one)
+            tg.start_soon(observer)
+            tg.start_soon(app_two)
+        for key in ("observer", "two_before", "two_parent", "two_after", "one_after"):
+            if seen.get(key, "missing") is not None:
+                problems.append((f"independent-task-sees-another-applications-context:{key}", repr(seen.get(key))))
+        if not seen.get("two_inside"):
+            problems.append(("independent-application-own-context", ""))
+
     async def main():
+        if variant == 6:
+            await independent_apps()
+            return
         async with (Batch() if falsy else Context()) as outer:
             if cur() is not outer:
                 problems.append(("current-context-inside-the-block-is-not-that-context", repr(cur())))
@@ -304,7 +350,16 @@ def inh_fn(a, tier):
                             pass
                         seen["start_restored"] = cur() is before
 
-                await start_component(Comp, {})
+                if variant == 7:
+
+                    class Outer(Component):
+                        async def start(self):
+                            await start_component(Comp, {})
+                            seen["outer_after"] = cur()
+
+                    await start_component(Outer, {})
+                else:
+                    await start_component(Comp, {})
                 if seen["prepare_parent"] is not outer or seen["start_parent"] is not outer:
                     problems.append(("component-context-parent-not-callers-context", f"{seen}"))
                 if not seen["prepare_inner"] or not seen["start_restored"]:
